@@ -46,11 +46,17 @@ inline Case &operator<<(Case &c, LD x)
   return c;
 }
 
+inline std::string &global_worst()
+{
+  static std::string s;
+  return s;
+}
 // ---------------------------------------------------------------- per-thread reporter
 struct Rep
 {
   long long states = 0, comps = 0, bad = 0;
   double worst = 0;  // max over comparisons of error / tolerance
+  std::string worst_at;
   bool verbose = false;
   std::map<std::string, long long> extra;
   std::map<std::string, int> seen;
@@ -78,8 +84,10 @@ struct Rep
     }
     if (tol > 0 && we == we) {
       double r = (double)(we / tol);
-      if (r > worst)
+      if (r > worst) {
         worst = r;
+        worst_at = std::string(c.type) + " " + what + " at " + c.str();
+      }
     }
     if (isbad || verbose) {
       std::string d = std::string(c.type) + " " + what + ": got (";
@@ -144,6 +152,15 @@ struct Rep
     vr::stat("transitions", comps);
     vr::stat("violating_comparisons", bad);
     vr::stat("max_err_permille_of_tolerance", (long long)(worst * 1000.0 + 0.5));
+    {
+      static std::mutex m;
+      static double gworst = 0;
+      std::lock_guard<std::mutex> g(m);
+      if (worst > gworst) {
+        gworst = worst;
+        global_worst() = worst_at;
+      }
+    }
     for (auto &kv : extra)
       vr::stat(kv.first, kv.second);
     for (auto h : outs)
